@@ -217,7 +217,7 @@ class Flow(Family):
 
     def model(self, case):
         m = {"s": "s", "rw": "r", "pw": "p", "l": "l"}
-        return "flow " + sim.enc_resp(case["resp"]) + " " + " ".join(m[e[0]] if e[0] != "lim" else f"k:{e[1]}" for e in case["evs"])
+        return "flow " + sim.enc_resp(case["resp"]) + " " + " ".join(f"k:{e[1]}" if e[0] == "lim" else f"t:{e[1]}" if e[0] == "tick" else m[e[0]] for e in case["evs"])
 
     def expect(self, case, out):
         assert out.startswith("ok "), out
